@@ -27,6 +27,11 @@ and again in a comprehension stays consistent.  list.append / insert / extend / 
 A `for` over cases that are written out in the code (a tuple / list display, also in a temporary or under zip / enumerate) is not a loop over
 the axes: it is executed case by case as python does, with `break` / `continue` / `else` (`_literal_loop`), so it reads like the if / elif
 chain or the copy-pasted blocks it stands for.
+A look-up table is the if / elif chain it spells: a dict display / dict(k=v) with literal keys (in a local, or a module / class level constant)
+is a value (`_Table`) that is indexed or `.get`-ed with the known label of the combination, the `.get` default being the else branch; an unknown
+key leaves the value undecided.  `slice(a, b)` objects are the slices they denote; a slice [lo:hi] of an index range drops lo entries in
+front and -hi at the end (ARANGE(a, b)[lo:hi] == ARANGE(a + lo, b + hi), `_range_slice`).  The boolean-mask update `A[:, mask] -= c` is
+`A -= np.where(mask[None, :], c, 0)` with the mask broadcast along the axis it indexes (`_masked_update`).
 """
 from __future__ import annotations
 
@@ -67,6 +72,21 @@ class _Split(Exception):
     def __init__(self, test, term):
         super().__init__("split")
         self.test, self.term = test, term
+
+
+class _Table:
+    """the value of a dict display / dict(k=v, ...) whose keys are literals: {decoded key (see _PolyEx._lit): value}.  A look-up table that spells
+    an if / elif chain on a label: `{"z": a, "pz": b}.get(d, c)` is `a if d == "z" else b if d == "pz" else c`"""
+
+    def __init__(self, items: dict):
+        self.items = dict(items)
+
+
+class _SliceVal:
+    """the value of slice(lo, hi[, step]) (bounds: None or terms): `x[slice(1, -1)]` is `x[1:-1]`"""
+
+    def __init__(self, lo, hi, step=None):
+        self.bounds = (lo, hi, step)
 
 
 def _fn(t, f) -> bool:
@@ -142,7 +162,64 @@ class _PolyEx(Extractor):
         if isinstance(v, (list, tuple)):
             items = [_PolyEx._lit(x) for x in v]
             return ("q", items) if all(i is not None and i[0] != "q" for i in items) else None
+        if isinstance(v, _Table):
+            return ("q", list(v.items))      # `key in table` asks for the keys
         return None
+
+    # ---- look-up tables: dict displays with literal keys, indexed / .get-ed by a known label
+    def _table(self, keys, values, env, depth):
+        """_Table of the (key node | str, value node) pairs when every key is a literal label / number / None / truth value, else None"""
+        items = {}
+        for k, v in zip(keys, values):
+            if k is None:
+                return None          # {**other}: not a written-out table
+            kk = ("s", k) if isinstance(k, str) else self._lit(self.expr(k, env, depth))
+            if kk is None or kk[0] == "q":
+                return None
+            try:
+                items[kk] = self.expr(v, env, depth)      # a later duplicate key wins, as in python
+            except Undecided:
+                items[kk] = self.fresh()
+        return _Table(items)
+
+    def _table_of(self, e, env, depth):
+        """the _Table that the expression e denotes: a dict display, a local holding one, a module / class level constant display; else None"""
+        d = dotted(e)
+        if isinstance(e, ast.Dict) or (d is None and isinstance(e, (ast.Call, ast.IfExp))):
+            try:
+                v = self.expr(e, env, depth)      # a display, dict(z=.., pz=..), a choice between two tables
+            except Undecided:
+                return None
+            return v if isinstance(v, _Table) else None
+        if d is None:
+            return None
+        if d in env:
+            return env[d] if isinstance(env[d], _Table) else None
+        node, mod, cls = None, env.get("__module__"), env.get("__class__")
+        parts = d.split(".")
+        if len(parts) == 1 and mod in self.source.modules:
+            node = self.source.modules[mod].globals.get(d)
+        elif len(parts) == 2 and mod in self.source.modules:
+            cname = cls if parts[0] in ("self", "cls") else parts[0]
+            if cname in self.source.modules[mod].classes:
+                for ci in self.source.mro(f"{mod}:{cname}"):
+                    if parts[1] in ci.consts:
+                        node = ci.consts[parts[1]]
+                        break
+        if isinstance(node, ast.Dict):
+            v = self.expr(node, {"__module__": mod, "__class__": cls}, depth)      # a constant: evaluated in the scope it is written in
+            return v if isinstance(v, _Table) else None
+        return None
+
+    def _lookup(self, tbl, key, default=None, strict=False):
+        k = self._lit(key)
+        if k is None or k[0] == "q":
+            raise Undecided("look-up in a table with a key that is not known")
+        if k in tbl.items:
+            return tbl.items[k]
+        if strict:
+            raise Undecided("look-up of a key that the table does not have (KeyError)")
+        return default
 
     def _combo(self, what):
         v = self.c.get(what)
@@ -313,6 +390,12 @@ class _PolyEx(Extractor):
                 new = self._list_method(v, env, depth)
                 env[v.func.value.id] = new if new is not None else self.fresh()
                 return [(env, guards, None)]
+            if (isinstance(v, ast.Call) and isinstance(v.func, ast.Attribute) and isinstance(v.func.value, ast.Name) and isinstance(env.get(v.func.value.id), _Table)
+                    and v.func.attr not in ("get", "keys", "values", "items", "copy")):
+                env = dict(env)          # tbl.update(..) / pop / setdefault / clear: no longer the table that was written out
+                self._rebind_closures(env)
+                env[v.func.value.id] = self.fresh()
+                return [(env, guards, None)]
             try:
                 if isinstance(v, ast.Call) and self._effect_callee(v, env) is not None:
                     return super().stmt(st, env, guards, depth)
@@ -320,6 +403,16 @@ class _PolyEx(Extractor):
             except Undecided:
                 pass
             return [(env, guards, None)]
+        if isinstance(st, ast.AugAssign) and isinstance(st.target, ast.Subscript):
+            try:
+                new = self._masked_update(st, env, depth)
+            except Undecided:
+                new = None
+            if new is not None:
+                env = dict(env)
+                self._rebind_closures(env)
+                env[dotted(st.target.value)] = new
+                return [(env, guards, None)]
         try:
             return super().stmt(st, env, guards, depth)
         except Undecided:
@@ -336,6 +429,45 @@ class _PolyEx(Extractor):
                     if d is not None:
                         env[d] = self.fresh()
             return [(env, guards, None)]
+
+    # ---- `A[:, mask] -= c`: the boolean-mask spelling of `A -= np.where(mask[None, :], c, 0)`
+    RELATIONS = {"EQ": "NE", "NE": "EQ", "LT": "GE", "GE": "LT", "GT": "LE", "LE": "GT"}
+
+    def _masked_update(self, st, env, depth):
+        """new value of the array A after `A[:, .., mask] op= c` / `A[..., mask] op= c` (op: + - * /) with a boolean mask (a comparison of a 1-d
+        term) and a number c: the columns where the mask holds are updated, i.e. `A op= np.where(M, c, neutral)` with the mask M broadcast along
+        the axis it indexes.  The number of axes of A is read from the broadcasting subscripts it was built from (n[None, :] * f(x[:, None]) has
+        two); None when anything is not of this form (the statement is then handled as any other subscript store)"""
+        d = dotted(st.target.value)
+        cur = env.get(d) if d is not None else None
+        if not isinstance(cur, sp.Basic) or not isinstance(st.op, (ast.Add, ast.Sub, ast.Mult, ast.Div)):
+            return None
+        sl = st.target.slice
+        elts = list(sl.elts) if isinstance(sl, ast.Tuple) else [sl]
+        lead, last = elts[:-1], elts[-1]
+        ellipsis = len(lead) == 1 and isinstance(lead[0], ast.Constant) and lead[0].value is Ellipsis
+        if not ellipsis and not all(isinstance(e, ast.Slice) and self._is_bcast(e) for e in lead):
+            return None
+        if isinstance(last, (ast.Slice, ast.Constant)):
+            return None
+        mask = self.expr(last, env, depth)
+        while _named(mask, "INVERT") and len(mask.args) == 1 and getattr(mask.args[0].func, "__name__", "") in self.RELATIONS:
+            mask = sp.Function(self.RELATIONS[mask.args[0].func.__name__])(*mask.args[0].args)      # ~(a == b) is a != b
+        if not (isinstance(mask, sp.Basic) and getattr(mask.func, "__name__", "") in self.RELATIONS and not mask.has(BC) and mask.has(ARANGE)):
+            return None
+        c = self._num(self.expr(st.value, env, depth))
+        if not (isinstance(c, sp.Basic) and c.is_number):
+            return None
+        ranks = {len(b.args[1].name[3:].split(",")) for b in cur.atoms(sp.Function) if _fn(b, BC) and "..." not in b.args[1].name}
+        if len(ranks) != 1:
+            return None
+        rank = next(iter(ranks))
+        axis = rank - 1 if ellipsis else len(lead)
+        if axis >= rank:
+            return None
+        m = BC(mask, sp.Symbol("bc|" + ",".join(":" if k == axis else "None" for k in range(rank)))) if rank > 1 else mask
+        w = WHERE(m, c, sp.Integer(0 if isinstance(st.op, (ast.Add, ast.Sub)) else 1))
+        return self.binop(st.op, cur, w)
 
     # ---- a `for` over cases that are written out: `for name, values in (("z", chi), ("pz", rz), ("pp", rp)):`
     MAX_CASES = 8
@@ -515,6 +647,13 @@ class _PolyEx(Extractor):
     def assign(self, target, v, env):
         if isinstance(target, ast.Subscript):
             d = dotted(target.value)
+            if d is not None and isinstance(env.get(d), _Table):
+                try:
+                    k = self._lit(self.expr(target.slice, env))
+                except Undecided:
+                    k = None
+                env[d] = _Table({**env[d].items, k: v}) if k is not None and k[0] != "q" else self.fresh()
+                return
             if d is not None:
                 idx = self._const_index(target.slice, env)
                 if isinstance(env.get(d), sp.Basic) and isinstance(v, sp.Basic) and idx is not None:
@@ -557,6 +696,13 @@ class _PolyEx(Extractor):
                 else:
                     out.append(self.expr(e, env, depth))
             return tuple(out) if isinstance(n, ast.Tuple) else out
+        if isinstance(n, ast.Dict):
+            try:
+                t = self._table(n.keys, n.values, env, depth)
+            except Undecided:
+                t = None          # a key that cannot be evaluated: not a written-out table
+            if t is not None:
+                return t
         if isinstance(n, ast.Attribute):
             d, base = dotted(n), dotted(n.value)
             if d is not None and d not in env and base is not None and base in env and base not in ("self", "cls", "np", "numpy"):
@@ -627,8 +773,15 @@ class _PolyEx(Extractor):
         if d in AXATTR and d not in env and self._combo(AXATTR[d]) is not None:
             self.idx.add(" ".join(ast.unparse(n.slice).split()))
             return self._combo(AXATTR[d])
+        tbl = self._table_of(n.value, env, depth)
+        if tbl is not None:
+            return self._lookup(tbl, self.expr(n.slice, env, depth), strict=True)
         sl = n.slice
-        elts = list(sl.elts) if isinstance(sl, ast.Tuple) else [sl]
+        elts = [self._written_slice(e, env, depth) for e in (sl.elts if isinstance(sl, ast.Tuple) else [sl])]
+        if len(elts) == 1 and isinstance(elts[0], ast.Slice) and not self._is_bcast(elts[0]):
+            r = self._range_slice(self.expr(n.value, env, depth), elts[0], env, depth)
+            if r is not None:
+                return r
         if all(self._is_bcast(e) for e in elts):
             # pure broadcasting subscript: the value with its orientation, e.g. BC(x, 'bc|:,None') (dropped again where only the value matters)
             v = self.expr(n.value, env, depth)
@@ -650,6 +803,48 @@ class _PolyEx(Extractor):
                 return SUB(v, sp.Symbol("sl|" + ",".join(parts)))
         return super().subscript(n, env, depth)
 
+    def _written_slice(self, e, env, depth):
+        """the index entry e as it would be written: a slice object with integer bounds (`slice(1, -1)`, also held in a local or taken from a
+        look-up table) is the slice `1:-1`"""
+        if isinstance(e, (ast.Name, ast.Call, ast.Subscript, ast.IfExp)):
+            try:
+                v = self.expr(e, env, depth)
+            except Undecided:
+                return e
+            if isinstance(v, _SliceVal) and all(b is None or isinstance(b, sp.Integer) for b in v.bounds):
+                lo, hi, step = [None if b is None else (ast.Constant(value=int(b)) if b >= 0 else ast.UnaryOp(op=ast.USub(), operand=ast.Constant(value=-int(b))))
+                                for b in v.bounds]
+                return ast.fix_missing_locations(ast.copy_location(ast.Slice(lower=lo, upper=hi, step=step), e))
+        return e
+
+    SIZE_NAMES = ("self.grid.M", "self.grid.N", "self.M", "self.N", "M", "N")
+
+    def _range_slice(self, v, s, env, depth):
+        """v[lo:hi] for an index range v = f(ARANGE(a, b)) whose other operands are scalars (numbers, the grid sizes, sizes of arrays), lo >= 0 a
+        number of entries dropped in front and hi < 0 a number dropped at the end: slicing commutes with element-wise arithmetic, and
+        ARANGE(a, b)[lo:hi] == ARANGE(a + lo, b + hi) (both empty when fewer entries exist than are dropped).  None for anything else"""
+        if s.step is not None and not (isinstance(s.step, ast.Constant) and s.step.value == 1):
+            return None
+        lo, hi = [None if b is None else self._num(self._bound(b, env, depth)) for b in (s.lower, s.upper)]
+        lo = sp.Integer(0) if lo is None else lo
+        hi = sp.Integer(0) if hi is None else hi
+        if not (isinstance(lo, sp.Integer) and isinstance(hi, sp.Integer) and lo >= 0 and (hi < 0 or s.upper is None)):
+            return None
+        if isinstance(v, tuple) and all(isinstance(x, sp.Integer) for x in v):
+            return v[int(lo):(int(hi) if s.upper is not None else None)]
+        if not isinstance(v, sp.Basic):
+            return None
+        ar = [a for a in v.atoms(sp.Function) if _fn(a, ARANGE)]
+        if len(ar) != 1:
+            return None
+        dummy = sp.Dummy("range")
+        rest = v.xreplace({ar[0]: dummy})
+        rest = rest.xreplace({a: sp.Dummy("size") for a in rest.atoms(sp.Function) if _fn(a, SIZE)})
+        if rest.atoms(sp.Function) or any(x.name not in self.SIZE_NAMES for x in rest.free_symbols if not isinstance(x, sp.Dummy)):
+            return None
+        a, b = ar[0].args
+        return v.xreplace({ar[0]: ARANGE(a + lo, b + hi)})
+
     def _const_index(self, sl, env):
         """also a name that holds a concrete integer: the counter of `enumerate(<written-out cases>)`"""
         k = super()._const_index(sl, env)
@@ -665,6 +860,18 @@ class _PolyEx(Extractor):
 
     def call(self, n, env, depth):
         d = dotted(n.func)
+        if isinstance(n.func, ast.Attribute) and n.func.attr == "get" and 1 <= len(n.args) <= 2 and not n.keywords:
+            tbl = self._table_of(n.func.value, env, depth)
+            if tbl is not None:
+                return self._lookup(tbl, self.expr(n.args[0], env, depth), self.expr(n.args[1], env, depth) if len(n.args) == 2 else None)
+        if d == "slice" and d not in env and 1 <= len(n.args) <= 3 and not n.keywords:
+            b = [self.expr(a, env, depth) for a in n.args]
+            b = [None if x is None else self._num(x) for x in b]
+            return _SliceVal(*((None, b[0]) if len(b) == 1 else b))
+        if d == "dict" and d not in env and not n.args and n.keywords:
+            t = self._table([k.arg for k in n.keywords], [k.value for k in n.keywords], env, depth)
+            if t is not None:
+                return t
         if d is not None and d not in env:
             parts = d.split(".")
             short, isnp = parts[-1], parts[0] in ("np", "numpy")
@@ -808,6 +1015,10 @@ def _same(a, b) -> bool:
         return len(a) == len(b) and all(_same(x, y) for x, y in zip(a, b))
     if isinstance(a, Opaque) and isinstance(b, Opaque):
         return a.text == b.text
+    if isinstance(a, _Table) and isinstance(b, _Table):
+        return list(a.items) == list(b.items) and all(_same(a.items[k], b.items[k]) for k in a.items)
+    if isinstance(a, _SliceVal) and isinstance(b, _SliceVal):
+        return a.bounds == b.bounds
     if isinstance(a, (list, tuple, Opaque)) or isinstance(b, (list, tuple, Opaque)):
         return False
     return a == b
@@ -866,6 +1077,11 @@ def _parity(w, k):
     if isinstance(w, sp.Basic) and w.has(sp.Mod(k, 2)) and not w.has(WHERE):
         m = sp.Mod(k, 2)
         return sp.simplify(w.subs(m, 0)), sp.simplify(w.subs(m, 1))     # k % 2 is 0 for even and 1 for odd k
+    if isinstance(w, sp.Mul):
+        # q * WHERE(c, a, b) == WHERE(c, q * a, q * b) for a number q  (`x += np.where(c, 0, -1)` spells `x -= np.where(c, 0, 1)`)
+        q, rest = w.as_coeff_Mul()
+        inner = _parity(rest, k) if _fn(rest, WHERE) else None
+        return None if inner is None else (q * inner[0], q * inner[1])
     if not _fn(w, WHERE):
         return None
     c, a, b = w.args
